@@ -14,7 +14,7 @@ CHECK = dict(
          "in Coq, on the implementation's graphs, the sharing oracles and `same` assertions (attribute after reset equals "
          "the attribute of a new instance); plain-subclass overrides are probed on the implementation only.",
     note="Trusted: Coq kernel + vm_compute; hand-written model; harness. Fixed: /repo 8d388fa (default_factory / "
-         "plain-subclass override ignored by __delattr__). Known finding: with a preparer, del/reset install the raw "
-         "default while a new instance holds the prepared one.",
+         "plain-subclass override ignored by __delattr__) and 8d0a965 (del/reset installed the raw instead of the prepared "
+         "default; found by the `same` oracle).",
     design="4 C08",
 )
